@@ -369,6 +369,7 @@ static void snapshot(hctx_t *h, int final)
 				const char *stg = h->in_finish ? "finish" : "submission";
 				if (ON("C01")) { snprintf(key, sizeof key, "wrong-symbol:%s:%s", h->cname, stg); rep_viol(key, "source %u differs from the encoded symbol", i); }
 				if (ON("C16")) rep_viol("2d-wrong-symbol", "source %u differs from the encoded symbol", i);
+				if (ON("C15")) rep_viol("null-claim-decoder-assumption-wrong", "a decoder session that assumes a null last repair symbol rebuilt source %u with wrong bytes (k=%u r=%u N1=%u seed=%u L=%u)", i, b->c.k, b->c.r, b->c.N1, b->c.seed, h->L);
 				if (ON("C03") && h->in_finish) rep_viol("ml-recovered-wrong-symbol", "of_finish_decoding made source %u available with bytes that differ from the encoded symbol", i);
 				if (ON("C02")) { snprintf(key, sizeof key, "mds-fail:%s", h->cname); rep_viol(key, "decoded source %u is wrong", i); }
 				if (ON("C11") && !h->submitted[i]) { snprintf(key, sizeof key, "cb-buffer-not-filled:%s", h->cname); rep_viol(key, "decoded source %u does not hold the decoded value", i); }
@@ -446,6 +447,12 @@ void run_history(const block_t *b, const hist_t *hi, unsigned mon, hres_t *res)
 	rep_count("api_create", 1); res->lib_calls++;
 	if (st != OF_STATUS_OK || !H.ses) { rep_viol("decoder-create-failed", "codec=%s status=%d", H.cname, st); return; }
 	if (hi->stop == 1) goto release;
+	if (hi->cbmode && hi->cb_early) {
+		H.k = c->k; H.L = c->L;
+		LIB_ENTER(); st = of_set_callback_functions(H.ses, cb_source, hi->cbmode == 5 ? cb_repair : NULL, &H); LIB_LEAVE();
+		res->lib_calls++; rep_count("callbacks_registered_before_the_parameters", 1);
+		if (st != OF_STATUS_OK && (ON("C10") || ON("C11"))) { key2(key, sizeof key, "set-callback-status", H.cname); rep_viol(key, "of_set_callback_functions (before of_set_fec_parameters) returned %d", st); }
+	}
 	if (g_session_preprobe) preprobe(H.ses, c, (int)type);
 	cfg_params(c, pbuf);
 	LIB_ENTER(); st = of_set_fec_parameters(H.ses, (of_parameters_t *)pbuf); LIB_LEAVE();
@@ -465,7 +472,7 @@ void run_history(const block_t *b, const hist_t *hi, unsigned mon, hres_t *res)
 		H.claim0 = st == OF_STATUS_OK ? (int)(isnull != 0) : -1;
 		if (st == OF_STATUS_OK && isnull) { H.received[n - 1] = 1; if (H.peel) gf2_peel_add(H.peel, n - 1); rep_count("sessions_with_self_injected_null_symbol", 1); }
 	}
-	if (hi->cbmode) {
+	if (hi->cbmode && !hi->cb_early) {
 		LIB_ENTER(); st = of_set_callback_functions(H.ses, cb_source, hi->cbmode == 5 ? cb_repair : NULL, &H); LIB_LEAVE();
 		res->lib_calls++;
 		if (st != OF_STATUS_OK && (ON("C10") || ON("C11"))) { key2(key, sizeof key, "set-callback-status", H.cname); rep_viol(key, "of_set_callback_functions returned %d", st); }
